@@ -16,7 +16,7 @@ META = {
              'timed all/none/mixed, roEdStart present, explicit start/end present, paragraph and item counts, kind of '
              'the message that produced the state).'),
     'workers': {'quick': 12, 'thorough': 16},
-    'watchdog': {'quick': 300, 'thorough': 1800},
+    'watchdog': {'quick': 600, 'thorough': 3600},
     'assumptions': ['stories have a storyID and items an itemID; durations numeric and times ISO-8601 where present'],
 }
 
